@@ -1186,6 +1186,8 @@ class FuncRenderer:
                 cn, t, node = self.tu.globals[did]
                 self.f.ext_calls.add('global:' + cn)
                 return E('var', name=cn, extra='global', isd=self.T.is_ref(t))
+            if rd.get('name') == 'npos':
+                return E('ilit', name='((unsigned long)-1)')
             # a variable of an enclosing scope we did not see (should not happen)
             raise Unsupported('unknown variable ' + rd.get('name', '?'))
         if k == 'EnumConstantDecl':
@@ -1516,8 +1518,11 @@ class FuncRenderer:
                 return E('call', a='bx_vec_particle_push_back', args=[optr] + [mk_addr(x) for x in es])
             raise Unsupported('vector method ' + mname)
         if oc == 'bx_string':
+            args = [a for a in args if a.get('kind') != 'CXXDefaultArgExpr']
             es = [self.expr(a) for a in args]
-            if mname in ('empty', 'size', 'length', 'clear', 'substr'):
+            if mname in ('find', 'rfind', 'compare') and es:
+                es = [mk_addr(es[0])] + es[1:]
+            if mname in ('empty', 'size', 'length', 'clear', 'substr', 'find', 'compare', 'rfind'):
                 return E('call', a='bx_string_' + mname, args=[optr] + es)
             raise Unsupported('string method ' + mname)
         if oc == 'bx_set_int':
